@@ -18,7 +18,9 @@ def flattenable(cfg):
     # with a window anywhere in the tree the order in which queued jobs get a slot follows the
     # iteration order of sets, which the renumbering of the flattened tree changes: without
     # windows that order only permutes events inside one instant
-    if any(j["sched"] and j["window"] for j in jobs):
+    # (likewise a timeout anywhere can tie with a completion, and which of the two wins the tie
+    # depends on the order in which timers were armed)
+    if any(j["sched"] and (j["window"] or j["timeout"] is not None) for j in jobs):
         return out
     for m, j in enumerate(jobs):
         if m == 0 or not j["sched"]:
@@ -131,8 +133,6 @@ def _run_flat(arg):
     t1, o1 = timeline(r1["log"])
     t2, o2 = timeline(r2["log"])
     diffs = []
-    if o1 and o2 and (o1[0] != o2[0]):
-        diffs.append({"outcome_of_run_nested": o1, "outcome_of_run_flattened": o2})
 
     def first_cancel(t):
         return t["first_cancel"]
@@ -141,6 +141,8 @@ def _run_flat(arg):
     # what happens in the instant T itself depends on the order of callbacks within one loop
     # iteration, which nesting legitimately changes (a completion and an abort that tie)
     T = min(first_cancel(t1), first_cancel(t2))
+    if T == float("inf") and o1 and o2 and (o1[0] != o2[0]):
+        diffs.append({"outcome_of_run_nested": o1, "outcome_of_run_flattened": o2})
     for old, new in sorted(ren.items()):
         if cfg["jobs"][old]["sched"]:
             continue
@@ -160,7 +162,7 @@ class C10(RProp):
     def generate(self, tier, rnd):
         n = 1000 if tier == "quick" else 100000
         out = list(rgen.enumerate_small()) if tier != "quick" else []
-        flat_profile = dict(self.profile, timeout=0.05, root_timeout=0.05, window=0.0, forever=0.03, never=0.0,
+        flat_profile = dict(self.profile, timeout=0.0, root_timeout=0.0, window=0.0, forever=0.03, never=0.0,
                             sdur=0.05, nested=0.55, crit=0.6)
         for i in range(n):
             mj = rnd.choice([3, 5, 8, self.max_jobs, self.max_jobs])
